@@ -28,6 +28,17 @@
 //	d.State()                                       the Voter's latches and the VoteDB's in-memory (round, index, marks)
 //	(*VoteDB).VerifState()                          the same for a bare VoteDB
 //
+// # Server index logic
+//
+//	sv := ucon.NewVerifServer(d, headRound)       a real Server with just enough collaborators (fake chain whose head has
+//	                                                consensus round headRound, un-started timer) to run its round/index
+//	                                                arithmetic; d's Voter answers processTimeout's getMarkedBlock
+//	ctxs, err := sv.StartNewRound(newRound)         the real StartNewRound; returns the ContextChangeEvents it posted
+//	ctxs := sv.NextRound(round, index, hash, prio)  delivery of a (possibly stale) RoundIndexChangeEvent to the real NextRound
+//	ctxs := sv.Timeout(round, maxIndex)             the real processTimeout
+//	ctxs := sv.Step(step)                           the real processStepEvent (step timer tick)
+//	sv.Indices()                                    (currentRound, roundIndex, nextIndex)
+//
 // A VerifStep lists every event the call posted on the event mux: SendMessageEvent (the signed votes leaving the node,
 // decoded), RoundIndexChangeEvent, CommitEvent, UpdateExistedHeaderEvent, staking.Evidence.
 //
@@ -53,6 +64,8 @@ import (
 
 	"github.com/youchainhq/go-youchain/bls"
 	"github.com/youchainhq/go-youchain/common"
+	"github.com/youchainhq/go-youchain/core"
+	"github.com/youchainhq/go-youchain/core/rawdb"
 	"github.com/youchainhq/go-youchain/core/state"
 	"github.com/youchainhq/go-youchain/core/types"
 	"github.com/youchainhq/go-youchain/crypto"
@@ -450,4 +463,113 @@ func (d *VerifVoter) State() VerifVoterState {
 	s.DBRound, s.DBRoundIndex, s.DBMarks = v.voteCache.VerifState()
 	s.Wrappers = append(s.Wrappers, v.votesWrappers.contexts...)
 	return s
+}
+
+// ---------------------------------------------------------------------------------------------------------------
+// Server round/index arithmetic
+
+type verifChain struct {
+	head *types.Header
+}
+
+func (c *verifChain) VersionForRound(round uint64) (*params.YouParams, error) {
+	yp := params.Versions[params.YouCurrentVersion]
+	return &yp, nil
+}
+func (c *verifChain) VersionForRoundWithParents(round uint64, parents []*types.Header) (*params.YouParams, error) {
+	return c.VersionForRound(round)
+}
+func (c *verifChain) CurrentHeader() *types.Header                            { return c.head }
+func (c *verifChain) GetHeader(hash common.Hash, number uint64) *types.Header { return nil }
+func (c *verifChain) GetHeaderByNumber(number uint64) *types.Header           { return nil }
+func (c *verifChain) GetHeaderByHash(hash common.Hash) *types.Header          { return nil }
+func (c *verifChain) GetBlock(hash common.Hash, number uint64) *types.Block   { return nil }
+func (c *verifChain) GetBlockByNumber(number uint64) *types.Block             { return nil }
+func (c *verifChain) GetVldReader(valRoot common.Hash) (state.ValidatorReader, error) {
+	return nil, fmt.Errorf("verif: no state")
+}
+func (c *verifChain) GetAcReader() rawdb.AcReader              { return nil }
+func (c *verifChain) UpdateExistedHeader(header *types.Header) {}
+
+// VerifServer runs the real Server's StartNewRound / NextRound / processTimeout.
+type VerifServer struct {
+	S   *Server
+	mux *event.TypeMux
+	sub *event.TypeMuxSubscription
+}
+
+// NewVerifServer builds a Server whose chain head carries consensus round headRound (so a new round is headRound+1).
+func NewVerifServer(d *VerifVoter, headRound uint64) *VerifServer {
+	cons, err := PrepareConsensusData(nil, &BlockConsensusData{Round: new(big.Int).SetUint64(headRound), RoundIndex: 1,
+		SortitionProof: []byte{1}, Signature: []byte{}})
+	if err != nil {
+		panic(err)
+	}
+	head := &types.Header{Number: new(big.Int).SetUint64(headRound), Consensus: cons, GasRewards: new(big.Int), Subsidy: new(big.Int)}
+	mux := new(event.TypeMux)
+	s := &Server{db: d.DB, blsMgr: bls.NewBlsManager(), rawSk: d.sk, mainAddress: d.Addr, eventMux: mux, chain: &verifChain{head: head}}
+	s.timer = NewTimerManager(s.processTimeout, s.processStepEvent) // never started: no timer goroutine
+	s.sortitionMgr = NewSortitionManager(nil, s.getLookbackStakeInfo, s.getLookBackSeed, d.Addr)
+	s.msgHandler = NewMessageHandler(d.sk, mux, nil, nil, nil, nil, nil)
+	s.voter = d.V
+	sv := &VerifServer{S: s, mux: mux}
+	sv.sub = mux.Subscribe(ContextChangeEvent{}, core.ChainHeadEvent{})
+	return sv
+}
+
+// SetVoter points processTimeout's getMarkedBlock at the driver's current Voter (after a Restart).
+func (sv *VerifServer) SetVoter(d *VerifVoter) { sv.S.voter = d.V }
+
+func (sv *VerifServer) collect(f func()) []ContextChangeEvent {
+	base := runtime.NumGoroutine()
+	f()
+	var out []ContextChangeEvent
+	for {
+		select {
+		case obj := <-sv.sub.Chan():
+			if obj != nil {
+				if c, ok := obj.Data.(ContextChangeEvent); ok {
+					out = append(out, c)
+				}
+			}
+		default:
+			if runtime.NumGoroutine() <= base {
+				sv.S.timer.Pause() // the timers created by startTimer must never fire into the harness
+				return out
+			}
+			runtime.Gosched()
+		}
+	}
+}
+
+// StartNewRound runs the real StartNewRound.
+func (sv *VerifServer) StartNewRound(newRound bool) (ctxs []ContextChangeEvent, err error) {
+	ctxs = sv.collect(func() { err = sv.S.StartNewRound(newRound) })
+	return
+}
+
+// NextRound delivers a RoundIndexChangeEvent to the real NextRound.
+func (sv *VerifServer) NextRound(round *big.Int, roundIndex uint32, hash, priority common.Hash) []ContextChangeEvent {
+	return sv.collect(func() {
+		sv.S.NextRound(RoundIndexChangeEvent{Round: round, RoundIndex: roundIndex, BlockHash: hash, Priority: priority})
+	})
+}
+
+// Timeout runs the real processTimeout.
+func (sv *VerifServer) Timeout(round *big.Int, maxRoundIndex uint32) []ContextChangeEvent {
+	return sv.collect(func() { sv.S.processTimeout(round, maxRoundIndex) })
+}
+
+// Step runs the real processStepEvent (what the step timer calls).
+func (sv *VerifServer) Step(step uint32) []ContextChangeEvent {
+	return sv.collect(func() { sv.S.processStepEvent(step) })
+}
+
+// Indices reports the Server's (currentRound, roundIndex, nextIndex).
+func (sv *VerifServer) Indices() (*big.Int, uint32, uint32) {
+	var r *big.Int
+	if sv.S.currentRound != nil {
+		r = new(big.Int).Set(sv.S.currentRound)
+	}
+	return r, sv.S.roundIndex, sv.S.nextIndex
 }
